@@ -164,8 +164,36 @@ def through_a_cid(vec):
     return [] if rows == want else ["%s: returns %s but the input holds %s" % (what, rows, want)]
 
 
+class _ForwardOnly(object):
+    """A text stream that can only be read (a pipe, a socket, a decompressor): no tell(), no seek()."""
+
+    def __init__(self, text):
+        self._stream = io.StringIO(text, newline="")
+
+    def read(self, size=-1):
+        return self._stream.read(size)
+
+
+def forward_only(vec):
+    """'For any character stream': the same outcome from a stream that offers nothing but read()."""
+    from cutplace import errors, rowio
+    expected = vec["parse"]
+    fields = [("f%d" % i, width) for i, width in enumerate(vec["widths"], 1)]
+    what = "fixed_rows(forward-only stream of %r, widths=%s, line delimiter=%s)" % (text_of(vec["input"]), vec["widths"], vec["delim"])
+    try:
+        rows = list(rowio.fixed_rows(_ForwardOnly(text_of(vec["input"])), "utf-8", fields, DELIM[vec["delim"]]))
+    except errors.DataFormatError:
+        return [] if expected[0] == "err" else ["%s: well-formed input refused" % what]
+    except Exception as error:  # noqa
+        return ["%s: neither rows nor a data-format error: %s: %s" % (what, type(error).__name__, error)]
+    if expected[0] == "err":
+        return ["%s: malformed input was silently read as %s" % (what, rows)]
+    want = [[text_of(item) for item in row] for row in expected[1]]
+    return [] if rows == want else ["%s: returns %s but the input holds %s" % (what, rows, want)]
+
+
 def _job(vec):
-    return problems_of(vec, observe(vec)) + written_back(vec) + through_a_cid(vec)
+    return problems_of(vec, observe(vec)) + written_back(vec) + through_a_cid(vec) + forward_only(vec)
 
 
 def replay(behaviour, report=None):
